@@ -29,8 +29,10 @@ func (s *session) callEntry(name, src string) *lisp.LVal {
 	case fun.IsSpecialOp():
 		return s.env.SpecialOpCall(fun, args)
 	}
-	if s.ctx != nil && s.nload > s.noCtxFirst {
-		return s.env.FunCallContext(s.ctx, fun, args)
+	if s.withCtx() {
+		v := s.env.FunCallContext(s.ctx, fun, args)
+		s.retire()
+		return v
 	}
 	return s.env.FunCall(fun, args)
 }
